@@ -13,7 +13,10 @@ Recs == JsonDeserialize(IOEnv.TRACE_FILE)
 Sel(c, name) == IF c THEN <<>> ELSE <<name>>
 
 Verdict(r) ==
-  IF ~WF(r.T, r.init) THEN <<>>                          \* the statement is silent
+  IF ~WF(r.T, r.init)                                    \* the statement gives the initializer no meaning (e.g. a str
+    THEN IF r.err1 = "" /\ ~r.guard THEN <<"new.fits">>  \* with more units than a T[N] has items): rejecting it is
+         ELSE <<>>                                       \* fine, so is anything inside the allocation - not a write
+                                                         \* past the size direct_newp asked the allocator for
   ELSE LET cl == Claims(r.T, 0, r.init) IN
        IF ~NoOverlap(cl) THEN <<>>                       \* two overlapping union members named: order-dependent
        ELSE IF r.err1 # "" THEN <<"new.raised">>
